@@ -195,7 +195,34 @@ func c17Valid(c *core.Ctx) {
 		return
 	}
 	// defaults may lie outside a kernel's domain (e.g. capacity 0): guard the direct run in a child-free way
-	direct, derr := Execute(&MRun{Model: model, N: 1, T: T, Sets: []PSet{eps}, Inputs: [][][]float64{ein}})
+	var direct *MOut
+	var derr error
+	directPanic := ""
+	func() {
+		// (only reachable when the model runs its cells on the calling goroutine: a panic on a cell goroutine ends the
+		// process, and the runner, built from the same library, would have crashed before we got here)
+		defer func() {
+			if r := recover(); r != nil {
+				directPanic = fmt.Sprint(r)
+			}
+		}()
+		direct, derr = Execute(&MRun{Model: model, N: 1, T: T, Sets: []PSet{eps}, Inputs: [][][]float64{ein}})
+	}()
+	if directPanic != "" {
+		// the direct one-cell Run has no answer for these parameter values (a default outside the kernel's domain): the
+		// runner's one document must then describe a problem instead of results
+		described := false
+		for _, l := range resp.Log {
+			if strings.TrimSpace(l) != "" {
+				described = true
+			}
+		}
+		if !described {
+			c.Violate("problem-not-described", model, fmt.Sprintf("a direct run panics (%s) but the runner's log is empty", headStr(directPanic, 200)), attrs...)
+		}
+		c.Count("requests_whose_direct_run_panics", 1)
+		return
+	}
 	if derr != nil {
 		c.Violate("prepare", model, derr.Error())
 		return
